@@ -197,6 +197,8 @@ pub fn gen_case(seed: u64, idx: u64, pairs: usize) -> Case {
             fd_headroom: if rng.chance(1, 8) { Some(*rng.pick(&[0u32, 1, 1, 2, 3, 4, 6])) } else { None },
             fd_from_batch: if rng.chance(1, 3) { 0 } else { 1 + rng.below(2 * total as u64 + 2) as u32 },
             fd_for_batches: *rng.pick(&[0u32, 1, 1, 2, 3]),
+            keep_tmp: rng.chance(1, 10),
+            tmp_on_other_fs: rng.chance(1, 10),
         });
     }
     Case { input, runs }
@@ -247,6 +249,8 @@ fn account(st: &mut WStats, idx: u64, case: &Case, run: &crate::world::CaseRun) 
     if !case.input.listed_twice.is_empty() {
         bump(&mut st.counters, "input.same_file_listed_twice", 1);
     }
+    bump(&mut st.counters, "knob.keep_tmp_dir_invocations", case.runs.iter().filter(|r| r.keep_tmp).count() as u64);
+    bump(&mut st.counters, "knob.tmp_dir_on_another_file_system_invocations", case.runs.iter().filter(|r| r.tmp_on_other_fs).count() as u64);
     if case.input.crlf.iter().any(|b| *b) {
         bump(&mut st.counters, "input.crlf_line_ends", 1);
     }
@@ -581,6 +585,14 @@ fn minimise(case: &Case, oracle: &str, root: &Path) -> (Case, u64) {
             if cur.runs[i].fd_headroom.is_some() {
                 let mut c = cur.clone();
                 c.runs[i].fd_headroom = None;
+                if fails(&c) {
+                    cur = c;
+                }
+            }
+            if cur.runs[i].keep_tmp || cur.runs[i].tmp_on_other_fs {
+                let mut c = cur.clone();
+                c.runs[i].keep_tmp = false;
+                c.runs[i].tmp_on_other_fs = false;
                 if fails(&c) {
                     cur = c;
                 }
